@@ -207,17 +207,18 @@ def main(argv):
                 acc = 'IOk' in cases[i][-12:]
                 what = ('type_check disagrees with the typing rules (%s by type_check, %s by the reference typer); the program depends on the %s'
                         % ('accepted' if acc else 'rejected', 'rejected' if acc else 'accepted', code_class(c)))
-                rep = {'kind': kinds[i], 'source_text': texts[i].replace('\\n', '\n') if kinds[i] == 'PROG' else None, 'case': cases[i], 'tag': tags[i]}
+                rep = {'kind': kinds[i], 'source_text': texts[i].replace('\\n', '\n'), 'case': cases[i], 'tag': tags[i]}
                 if texts[i] in later: rep['later_pass_panic'] = later[texts[i]]
                 found(code_class(c), what, rep)
         for i in sorted(unexplained, key=lambda i: len(cases[i]))[:3]:
-            v.violation('type_check disagrees with the typing rules and every table row the program uses is as specified (%s case)' % kinds[i],
+            v.violation(('type_check disagrees with the typing rules and every table row the program uses is as specified (%s case)' if kinds[i] in ('PROG', 'CTY')
+                         else 'the type the checker assigns to an accepted expression/const differs from the type of the value the implementation evaluates it to (%s case)') % kinds[i],
                         {'class': 'c09-spec:' + kinds[i], 'kind': kinds[i], 'case': cases[i], 'source': texts[i], 'tag': tags[i],
-                         'source_text': texts[i].replace('\\n', '\n') if kinds[i] == 'PROG' else None})
+                         'source_text': texts[i].replace('\\n', '\n')})
         for i in sorted(mism, key=lambda i: len(cases[i]))[:3]:
             v.violation('model/implementation disagreement on a %s case' % kinds[i],
                         {'class': 'c09-corr:' + kinds[i], 'kind': kinds[i], 'case': cases[i], 'source': texts[i], 'tag': tags[i],
-                         'source_text': texts[i].replace('\\n', '\n') if kinds[i] == 'PROG' else None, 'broken': 'correspondence Corr.C09.model_of'},
+                         'source_text': texts[i].replace('\\n', '\n'), 'broken': 'correspondence Corr.C09.model_of'},
                         no_failing_input=(i not in smism and not oracle_fail))
     lap('coq evaluation done')
     # (O) oracle failures that are not attached to a case: the ECL10 enum probe, harness problems
